@@ -589,7 +589,10 @@ func (env *SpecEnv) binary(n *ast.BinaryExpr) sv {
 		return sv{V: c.BvAnd(x, y), T: t}
 	case token.OR:
 		if e.IntMode {
-			env.fail("| in int mode")
+			if r, ok := e.orInt(x, y); ok {
+				return sv{V: r, T: t}
+			}
+			env.fail("| in int mode (operands not provably bit-disjoint)")
 		}
 		return sv{V: c.BvOr(x, y), T: t}
 	case token.XOR:
